@@ -36,13 +36,13 @@ C4RegClasses == {"Exception", "HTTPError", "HTTPNotFound", "AppA", "AppB", "AppC
 C4RegClassesQ == {"Exception", "HTTPNotFound", "AppA", "AppB"}
 C4RaiseQ == {"HTTPNotFound", "StSub", "AppA", "AppB", "AppD", "AppX", "Exception"}
 C4RenderQ == {"AppD", "HTTPNotFound"}
-C4RegBehs    == {"set", "http", "other"}
-C4RegBehsAll == {"set", "noop", "http", "status", "other"}
+C4RegBehs    == {"set", "setbad", "http", "other"}
+C4RegBehsAll == {"set", "setbad", "noop", "http", "status", "other"}
 C4Raise  == {"HTTPError", "HTTPNotFound", "HTTPStatus", "StSub", "AppA", "AppB", "AppC", "AppD", "AppX", "Exception"}
 C4Render == {"AppA", "AppD", "AppX", "HTTPNotFound"}
 None == {}
 (* wrong-design runs (vacuity control): a tiny instance in which every named wrong design is reachable *)
-WRegs  == {<< R("AppB", "set"), R("AppB", "http"), R("AppD", "set"), R("StSub", "noop") >>}
+WRegs  == {<< R("AppB", "set"), R("AppB", "http"), R("AppD", "setbad"), R("StSub", "noop") >>}
 WRaise == {"AppB", "AppD", "StSub", "HTTPError"}
 MCWrong == IF "WRONG" \in DOMAIN IOEnv THEN IOEnv.WRONG ELSE "none"
 
@@ -60,6 +60,7 @@ XAfterCall  == \E p \in P2 : Budget(p[1]) /\ AfterCall(p[1], p[2])
 XRespCall   == \E p \in P2 : Budget(p[1]) /\ RespCall(p[1], p[2])
 XRenderOk   == RenderCall("ret", "")
 XRenderFail == faults < MaxFaults /\ \E c \in RenderClasses : RenderCall("raise", c)
+XRenderBad  == \E c \in RenderClasses : RenderBad(c)
 XReqSkip == ReqSkip
 XReqDone == ReqDone
 XRoute == Route
@@ -72,16 +73,16 @@ XRespDone == RespDone
 XHandle == HandleCall
 
 MCNext == XAddHandler \/ XStart \/ XReqCall \/ XRsrcCall \/ XBeforeCall \/ XResponder \/ XAfterCall \/ XRespCall
-          \/ XRenderOk \/ XRenderFail \/ XReqSkip \/ XReqDone \/ XRoute \/ XRsrcSkip \/ XRsrcDone \/ XBeforeDone
+          \/ XRenderOk \/ XRenderFail \/ XRenderBad \/ XReqSkip \/ XReqDone \/ XRoute \/ XRsrcSkip \/ XRsrcDone \/ XBeforeDone
           \/ XNotFound \/ XAfterDone \/ XRespDone \/ XHandle
 
 TypeOK == /\ phase \in {"setup", "req", "route", "rsrc", "before", "responder", "after", "resp", "render", "handle", "end"}
           /\ faults <= MaxFaults /\ status \in 100..999
-          /\ body.k \in {"none", "mark", "err", "e500", "stext", "hset"}
+          /\ body.k \in {"none", "mark", "err", "e500", "stext", "hset", "hbad"}
 
 (* behaviour export (leg A): one JSON object per finished request *)
 Emit == phase = "end" =>
     PrintT(ToJson([shape |-> [c \in 1..N |-> shape[c]], indep |-> indep, target |-> target, nb |-> nb, na |-> na,
                    reg |-> reg, calls |-> calls, status |-> status, body |-> body, hdrs |-> hdrs, vary |-> vary,
-                   escaped |-> escaped, renderfail |-> (pend.back = "end")]))
+                   escaped |-> escaped, renderfail |-> (pend.back \in {"rendered", "fallback"}), fallback |-> (pend.back = "fallback")]))
 =============================================================================
